@@ -246,6 +246,9 @@ pub fn run(opts: Opts) -> i32 {
         return worker(&opts.extra);
     }
     let report = Report::new("C19", "exploration", opts.clone());
+    if let Some(path) = &opts.replay {
+        report.replay_by_re_enumeration(path);
+    }
     report.set_rule(
         "the product secret source {RIP_OPENRESPONSES_API_KEY, OPENAI_API_KEY, OPENROUTER_API_KEY (selected by the endpoint substring), inline \
          api_key in the global / custom (RIP_CONFIG) / project / parent-project config layer, {env: NAME} indirection, secret header, header + \
